@@ -246,3 +246,7 @@ def anc_axioms_all(cls):
 
 ghost("ListsDistinct", ["rs"], "forall(s, forall(t, implies(s != t and s in rs.slotTaskUsage and t in rs.slotTaskUsage, "
                                "rs.slotTaskUsage[s] != rs.slotTaskUsage[t])))")
+
+# every recorded portion is a positive number of seconds that fits the slot
+ghost("EntriesFit", ["rs"], "forall(s, implies(s in rs.slotTaskUsage, forall(k, 0, len(rs.slotTaskUsage[s]), "
+                            "0 < rs.slotTaskUsage[s][k][1] and rs.slotTaskUsage[s][k][1] <= D(rs))))")
